@@ -570,6 +570,71 @@ func structureMutants(s *chain.Sim, p chain.BlockPlan, rng *rand.Rand) []mutant 
 			return true
 		}, true)
 	}
+	// an ephemeral parent (unassigned leaf index) NAMING an element of another kind recorded earlier in the block: the
+	// in-block element table is one map for all kinds, the per-kind diff slices are indexed with what it returns
+	if b.V2 != nil && len(b.V2.Transactions) > 0 {
+		var scIDs, sfIDs, fcIDs []types.Hash256
+		for _, t := range b.V2.Transactions {
+			txid := t.ID()
+			for _, in := range t.SiacoinInputs {
+				scIDs = append(scIDs, types.Hash256(in.Parent.ID))
+			}
+			for k := range t.SiacoinOutputs {
+				scIDs = append(scIDs, types.Hash256(t.SiacoinOutputID(txid, k)))
+			}
+			for _, in := range t.SiafundInputs {
+				sfIDs = append(sfIDs, types.Hash256(in.Parent.ID))
+			}
+			for k := range t.SiafundOutputs {
+				sfIDs = append(sfIDs, types.Hash256(t.SiafundOutputID(txid, k)))
+			}
+			for k := range t.FileContracts {
+				fcIDs = append(fcIDs, types.Hash256(t.V2FileContractID(txid, k)))
+			}
+			for _, r := range t.FileContractRevisions {
+				fcIDs = append(fcIDs, types.Hash256(r.Parent.ID))
+			}
+			for _, r := range t.FileContractResolutions {
+				fcIDs = append(fcIDs, types.Hash256(r.Parent.ID))
+			}
+		}
+		anyone := types.SatisfiedPolicy{Policy: types.PolicyAbove(0)}
+		addr := types.PolicyAbove(0).Address()
+		crossKind := func(kind string, ids []types.Hash256, asSiafund bool) {
+			for _, pick := range []int{0, len(ids) - 1} {
+				if len(ids) == 0 || (pick == 0 && len(ids) == 1 && kind != "") && false {
+					continue
+				}
+				if pick < 0 || pick >= len(ids) {
+					continue
+				}
+				id := ids[pick]
+				which := "first"
+				if pick != 0 {
+					which = "last"
+				}
+				add("v2:ephemeral-"+kind+":"+which, func(mb *types.Block, _ *consensus.V1BlockSupplement) bool {
+					se := types.StateElement{LeafIndex: types.UnassignedLeafIndex}
+					var vt types.V2Transaction
+					if asSiafund {
+						vt.SiafundInputs = []types.V2SiafundInput{{Parent: types.SiafundElement{ID: types.SiafundOutputID(id), StateElement: se,
+							SiafundOutput: types.SiafundOutput{Value: 1, Address: addr}}, SatisfiedPolicy: anyone}}
+						vt.SiafundOutputs = []types.SiafundOutput{{Value: 1, Address: addr}}
+					} else {
+						vt.SiacoinInputs = []types.V2SiacoinInput{{Parent: types.SiacoinElement{ID: types.SiacoinOutputID(id), StateElement: se,
+							SiacoinOutput: types.SiacoinOutput{Value: types.Siacoins(1), Address: addr}}, SatisfiedPolicy: anyone}}
+						vt.SiacoinOutputs = []types.SiacoinOutput{{Value: types.Siacoins(1), Address: addr}}
+					}
+					mb.V2.Transactions = append(mb.V2.Transactions, vt)
+					return true
+				}, true)
+			}
+		}
+		crossKind("siafund-names-siacoin-element", scIDs, true)
+		crossKind("siafund-names-contract", fcIDs, true)
+		crossKind("siacoin-names-siafund-element", sfIDs, false)
+		crossKind("siacoin-names-contract", fcIDs, false)
+	}
 	return out
 }
 
